@@ -239,10 +239,26 @@ func c19Run(r *Run) {
 		recv := info.Defs[clone.Recv.List[0].Names[0]]
 		okMap, seen := true, false
 		ast.Inspect(clone.Body, func(n ast.Node) bool {
-			kv, ok := n.(*ast.KeyValueExpr)
-			if !ok || exprStr(kv.Key) != "GenericMap" {
+			var value ast.Expr
+			switch x := n.(type) {
+			case *ast.KeyValueExpr:
+				if exprStr(x.Key) == "GenericMap" {
+					value = x.Value
+				}
+			case *ast.AssignStmt:
+				// built field by field: inst.GenericMap = m
+				for i, l := range x.Lhs {
+					if se, ok := ast.Unparen(l).(*ast.SelectorExpr); ok && se.Sel.Name == "GenericMap" && i < len(x.Rhs) {
+						if id, ok := ast.Unparen(se.X).(*ast.Ident); !ok || info.Uses[id] != recv {
+							value = x.Rhs[i]
+						}
+					}
+				}
+			}
+			if value == nil {
 				return true
 			}
+			kv := struct{ Value ast.Expr }{value}
 			seen = true
 			aliased := false
 			ast.Inspect(kv.Value, func(m ast.Node) bool {
@@ -279,18 +295,13 @@ func c19Run(r *Run) {
 				return true
 			}
 			key := funcKey(npkg, fd) + "#clone-arg"
-			fresh := false
+			fresh := freshMapExpr(info, npkg, c.Args[0], 0)
 			if id, ok := ast.Unparen(c.Args[0]).(*ast.Ident); ok {
 				obj := info.Uses[id]
 				ast.Inspect(fd.Body, func(m ast.Node) bool {
-					if as, ok := m.(*ast.AssignStmt); ok && len(as.Lhs) == 1 && len(as.Rhs) == 1 {
+					if as, ok := m.(*ast.AssignStmt); ok && len(as.Rhs) == 1 {
 						if lid, ok := as.Lhs[0].(*ast.Ident); ok && info.Defs[lid] == obj {
-							switch rv := ast.Unparen(as.Rhs[0]).(type) {
-							case *ast.CallExpr:
-								if mid, ok := ast.Unparen(rv.Fun).(*ast.Ident); ok && mid.Name == "make" {
-									fresh = true
-								}
-							case *ast.CompositeLit:
+							if freshMapExpr(info, npkg, as.Rhs[0], 0) {
 								fresh = true
 							}
 						}
@@ -453,4 +464,63 @@ func firstKey(m map[string]*ast.FuncDecl) string {
 	}
 	sort.Strings(ks)
 	return ks[0]
+}
+
+// freshMapExpr: e builds a new map in this call: make(map…), a composite literal, or a call of a package
+// function every map-typed return of which is such a fresh map (built in that function).
+func freshMapExpr(info *types.Info, p *packages.Package, e ast.Expr, depth int) bool {
+	switch rv := ast.Unparen(e).(type) {
+	case *ast.CompositeLit:
+		return true
+	case *ast.CallExpr:
+		if mid, ok := ast.Unparen(rv.Fun).(*ast.Ident); ok && mid.Name == "make" {
+			return true
+		}
+		if depth > 1 {
+			return false
+		}
+		callee := calleeOf(info, rv)
+		for _, fd := range funcDecls(p) {
+			if info.Defs[fd.Name] != callee {
+				continue
+			}
+			// locals of the helper that are fresh maps
+			freshLocal := map[types.Object]bool{}
+			ast.Inspect(fd.Body, func(n ast.Node) bool {
+				if as, ok := n.(*ast.AssignStmt); ok && len(as.Lhs) == 1 && len(as.Rhs) == 1 {
+					if id, ok := as.Lhs[0].(*ast.Ident); ok {
+						if o := info.Defs[id]; o != nil && freshMapExpr(info, p, as.Rhs[0], depth+1) {
+							freshLocal[o] = true
+						}
+					}
+				}
+				return true
+			})
+			all, n := true, 0
+			ast.Inspect(fd.Body, func(n2 ast.Node) bool {
+				if _, ok := n2.(*ast.FuncLit); ok {
+					return false
+				}
+				rs, ok := n2.(*ast.ReturnStmt)
+				if !ok || len(rs.Results) == 0 {
+					return true
+				}
+				res := ast.Unparen(rs.Results[0])
+				if exprStr(res) == "nil" {
+					return true
+				}
+				n++
+				if id, ok := res.(*ast.Ident); ok && freshLocal[info.Uses[id]] {
+					return true
+				}
+				if freshMapExpr(info, p, res, depth+1) {
+					return true
+				}
+				all = false
+				return true
+			})
+			return all && n > 0
+		}
+	}
+	return false
 }
